@@ -51,9 +51,9 @@ REGISTRY["C01"] = dict(
     level="other",
     technique="static analysis: error-kind typestate over the resolved call graph; predicate-sensitive guard dominance; lexer-progress abstract interpretation of parser loops; reachability of explicit panic macros",
     claim=(
-        "Six structural clauses, each a necessary condition of totality, decided for all sites of the current tree: (a) only Raw errors can reach SassError::raw(); "
+        "Seven structural clauses, each a necessary condition of totality, decided for all sites of the current tree: (a) only Raw errors can reach SassError::raw(); "
         "(b) every unit conversion is guarded on every path; (c) each of the 84 loops of the parsers provably consumes input on every cycle (67), is driven by a finite std iterator (7) or is one of 10 hand-reviewed exceptions, and no loop has a forced cycle at end of input; "
-        "(d) every todo!/unimplemented!/assert! site is unreachable, guarded, or in the reviewed list; (e) the panic-capable operations inside error.rs (building, classifying and rendering an error) are exactly the four reviewed ones; (f) in the indented-syntax comment parsers `current_indentation - parent_indentation` cannot underflow (saturating, or every read_indentation() is preceded by peek_indentation() >= parent). NOT decided: the ~230 unwrap/unreachable!/index sites resting on value invariants, "
+        "(d) every todo!/unimplemented!/assert! site is unreachable, guarded, or in the reviewed list; (e) the panic-capable operations inside error.rs (building, classifying and rendering an error) are exactly the four reviewed ones; (f) in the indented-syntax comment parsers `current_indentation - parent_indentation` cannot underflow (saturating, or every read_indentation() is preceded by peek_indentation() >= parent); (g) Lexer::new_from_string derives is_expanded from the byte length of the text against the span length. NOT decided: the ~230 unwrap/unreachable!/index sites resting on value invariants, "
         "stack exhaustion on deep nesting, termination of evaluation/serialisation."
     ),
     explanation=(
@@ -111,7 +111,7 @@ REGISTRY["C09"] = dict(
     claim=(
         "Structural clauses: (a) the variant-pair matrix of Value::eq is symmetric and reflexive-capable, Value::not_equals is never constant-true where == can be true, and for every pair both handle in an arm of their own the two arms compare the same attributes (separator, brackets, length, elements, ...); (b) no PartialEq impl of a value type overrides `ne`, "
         "visit_bin_op maps Equal/NotEqual to eq/ne; (c) every key comparison in SassMap and index() is Value's ==/not_equals; (d) SassMap's vector is only pushed/retained/iterated and insert pushes only after the search missed; "
-        "(e) visit_map inserts only after the duplicate test and duplicates are Err; (f) number equality is key-induced: fuzzy_equals returns true only under k(a) == k(b) for one per-operand expression k (a bucket partition, hence transitive) and Number's == is exactly fuzzy_equals. NOT decided: transitivity across unit conversion (1in == 96px == ...), which rests on floating-point values."
+        "(e) visit_map inserts only after the duplicate test and duplicates are Err; (f) number equality is key-induced: fuzzy_equals returns true only under k(a) == k(b) for one per-operand expression k (a bucket partition, hence transitive) and Number's == is exactly fuzzy_equals, which returns true directly for identical operands (reflexive for infinities). NOT decided: transitivity across unit conversion (1in == 96px == ...), which rests on floating-point values."
     ),
     explanation="Clauses C09-a..e of DESIGN.md §3, decided on MIR/HIR facts of the current tree. NOT decided: equivalence laws through fuzzy numeric comparison, values of comparisons.",
     assumptions=TRUSTED,
@@ -135,7 +135,7 @@ REGISTRY["C05"] = dict(
     claim=(
         "Encoding and visibility clauses: (a) every write to Serializer.buffer / the local quoting buffer is an ASCII constant, a whole str, fmt output or the in-order copy of a source byte, no cutting operation is ever applied, "
         "and in the two byte-copy loops a byte >= 0x80 is always copied unchanged with nothing interleaved (safety of the two from_utf8_unchecked); (b) the unsafe inventory is exactly the three reviewed blocks; "
-        "(c) BOM/@charset are inserted exactly under (non-ASCII, allows_charset[, compressed]) and nothing else reads allows_charset; (d) invisible selectors/statements are filtered before any write; (e) in quoted strings the escaped byte set is exactly the C0 controls except tab (decision blocks evaluated for all 256 byte values) and a hex escape is followed by a space before a hex digit, space or tab; (f) attribute values are written unquoted only under is_ident(), which reaches its scanning loop only for a first character that is a non-digit name-start character. "
+        "(c) BOM/@charset are inserted exactly under (non-ASCII, allows_charset[, compressed]) and nothing else reads allows_charset; (d) invisible selectors/statements are filtered before any write; (e) in quoted strings the escaped byte set is exactly the C0 controls except tab (decision blocks evaluated for all 256 byte values) and a hex escape is followed by a space before a hex digit, space or tab; (f) attribute values are written unquoted only under is_ident(), which reaches its scanning loop only for a first character that is a non-digit name-start character; (g) the indented-syntax loud comment tests for its closing `*/` on text with trailing whitespace trimmed. "
         "NOT decided: balanced braces/strings/comments, absence of Sass-only syntax in values, re-parse idempotence."
     ),
     explanation="Clauses C05-a..d of DESIGN.md §3 on MIR/HIR facts of the current tree. NOT decided: well-formedness of the emitted text as CSS, fixed-point behaviour.",
@@ -159,7 +159,7 @@ REGISTRY["C06"] = dict(
     technique="static analysis: who-may-read rule for the style flag (Options::is_compressed / Options.style) and for serializer entry points called with the user's Options, over the resolved call graph",
     claim=(
         "Style-flag confinement: outside serializer.rs/lib.rs no function reads the output style, passes a non-constant style to Value::to_css_string/Number::to_string, or serializes text for SassScript with the caller's Options; "
-        "the compressed comment-retention predicate is exactly `/*!`; compressed colour spellings (short hex only when red, green and blue are all doubled digits; names only when not longer) denote the same colour; (d) no number text is cut at a constant offset without a test of the prefix being dropped (compressed `0.x` -> `.x`). Each function that does is a separate finding. NOT decided: that expanded and compressed outputs are equivalent CSS."
+        "the compressed comment-retention predicate is exactly `/*!`; compressed colour spellings (short hex only when red, green and blue are all doubled digits; names only when not longer) denote the same colour; (d) no number text is cut at a constant offset without a test of the prefix being dropped (compressed `0.x` -> `.x`); (e) visit_quoted_string / visit_unquoted_string, which copy string contents, never consult the style. Each function that does is a separate finding. NOT decided: that expanded and compressed outputs are equivalent CSS."
     ),
     explanation="Clauses of DESIGN.md §3 C06 on MIR facts of the current tree; the evaluation-time readers of the style flag on the pinned tree are listed as known findings, each with an input whose SassScript-visible result differs between styles. NOT decided: CSS equivalence of the two outputs.",
     assumptions=TRUSTED,
@@ -233,7 +233,7 @@ REGISTRY["C03"] = dict(
     claim=(
         "Structural discipline clauses: (a,b) every discovered temporary override of scopes, flags, env, content, configuration and import path (34 instances frozen from the pinned tree) is restored on every non-Err exit; "
         "(c) only the lookup/insert functions write Scopes.last_variable_index, every scope pop / variable removal resets it, and every insertion into a scope map first refreshes the cache to that (name, index), resets it, or targets index 0; (d) BinaryOp::precedence follows the Sass order, and/or evaluate the right operand only under the "
-        "right truthiness, if() evaluates exactly one branch; (e) arguments are evaluated before the environment switch, verify precedes binding, positional binding precedes defaults precedes the body; (f) scope maps, which closures share by Arc (new_closure clones the Arcs), are only inserted into: destructive BTreeMap operations on Identifier-keyed value/mixin/function maps are an exact reviewed inventory; (g) @each zips its variables with the element's values chained with an unbounded null iterator (type-level: Chain<IntoIter<Value>, Cycle/Repeat<..>>). "
+        "right truthiness, if() evaluates exactly one branch; (e) arguments are evaluated before the environment switch, verify precedes binding, positional binding precedes defaults precedes the body; (f) scope maps, which closures share by Arc (new_closure clones the Arcs), are only inserted into: destructive BTreeMap operations on Identifier-keyed value/mixin/function maps are an exact reviewed inventory; (g) @each zips its variables with the element's values chained with an unbounded null iterator (type-level: Chain<IntoIter<Value>, Cycle/Repeat<..>>); (h) in the @for/@each/@while visitors no path leads from `visit_stmt produced a value` back to the header of an enclosing loop. "
         "NOT decided: that the values computed are the specified ones; !global/!default semantics; closure capture; @content scope."
     ),
     explanation="Clauses C03-a..e of DESIGN.md §3 on MIR facts of the current tree. NOT decided: evaluation results.",
